@@ -97,7 +97,7 @@ def finish_model_checking(chk, h):
 # cases
 def model_cases(chk, lists):
     rng = random.Random("c18-model-%d" % chk.seed)
-    quota = [900, 300, 150] if chk.tier == "quick" else [len(lists[0]), len(lists[1]), 2000]
+    quota = [900, 300, 150] if chk.tier == "quick" else [6000, len(lists[1]), 1500]
     cases = []
     for ls, q in zip(lists, quota):
         idx = list(range(len(ls)))
@@ -178,7 +178,7 @@ def corpus_cases(chk, pool):
     rng = random.Random("c18-corpus-%d" % chk.seed)
     groups = {k: sorted(v, key=lambda x: x["label"]) for k, v in pool.items() if len(v) >= 2}
     chk.notes["corpus_groups"] = {"%d/%s" % k: len(v) for k, v in sorted(groups.items())}
-    budget = 130 if chk.tier == "quick" else 1300
+    budget = 110 if chk.tier == "quick" else 700
     cases = []
     keys = sorted(groups)
     # every group gets a share; big homogeneous groups (the AOTS suite) do not crowd out the others
@@ -274,6 +274,11 @@ def _job(case):
 
 
 def drive(chk, cases):
+    # import everything the workers need before forking (bytecode caching is off: each worker would recompile it)
+    import fontTools.feaLib.builder, fontTools.fontBuilder, fontTools.merge, fontTools.pens.recordingPen  # noqa: F401
+    import fontTools.pens.t2CharStringPen, fontTools.pens.ttGlyphPen, fontTools.ttLib.tables.otTables  # noqa: F401
+    from . import c07, c18_models, c18_project, hb, otl_project, rawsfnt  # noqa: F401
+
     for k, c in enumerate(cases):
         c["dir"] = os.path.join(chk.work, "case%06d" % k)
         c["seed"] = chk.seed
